@@ -272,6 +272,10 @@ class Pool(object):
                 p_, e_ = sh["vals"][k]
                 sh["vals"][k] = (p_, e_ - emin)
         self.inputs.append(sh)
+        # ... and the same at the level of the scaled arrays: the second base input with bFT0 - min(bFT0), bit for bit
+        sa = clone(b1, "zero-min-arrays")
+        sa["zero_min_arrays"] = True
+        self.inputs.append(sa)
         if nwyckoff > 1:
             # differs only in one vacancy-site energy (catches keys that ignore a field)
             w = clone(b0, "one-site-energy")
@@ -311,7 +315,10 @@ class Pool(object):
         if inp.get("tracer"):
             td.update(calc.maketracerpreene(**td))
         bF = calc.preene2betafree(inp["kT"], **td)
-        return [np.array(x, dtype=float) for x in bF]
+        out = [np.array(x, dtype=float) for x in bF]
+        if inp.get("zero_min_arrays"):
+            out[3] = out[3] - out[3].min()
+        return out
 
     def extreme(self, k):
         return self.inputs[k % len(self.inputs)]["extreme"]
